@@ -71,6 +71,7 @@ Hypothesis upd_below_max : forall va vb md sa sb sx,
 (* where a changed cell is not re-checked against the priority *)
 Hypothesis rename_reducible : below_kind_of meth = BelowRename ->
   forall va vb md sa sb sx, (uses_sizes_ab meth = true -> 0 < sa /\ 0 < sb) ->
+  ltb va md = false -> ltb vb md = false ->
   ltb (k_upd K va vb md sa sb sx) va = false \/ ltb (k_upd K va vb md sa sb sx) vb = false.
 Hypothesis untracked_grows : tracks_candidates meth = false ->
   forall va vb md sa sb sx, ltb (k_upd K va vb md sa sb sx) vb = false.
@@ -184,10 +185,11 @@ Qed.
 Lemma below_lb dist sa sb s M x s1 M1 :
   GIu s M -> LBa (st_queue s) M -> In x L -> x < a ->
   (uses_sizes_ab meth = true -> 0 < sa /\ 0 < sb) ->
+  (forall va vb, wcell M x a = Some va -> wcell M x b = Some vb -> ltb va dist = false /\ ltb vb dist = false) ->
   gen_below K p meth a b dist sa sb (s, M) x = Ok (s1, M1) ->
   LBa (st_queue s1) M1.
 Proof.
-  intros HG HLB Hx Hxa Hsz H. pose proof HG as (E1 & E2 & Hwf & Ho & Hbm & (HI & _ & Hin & _)).
+  intros HG HLB Hx Hxa Hsz Hmd H. pose proof HG as (E1 & E2 & Hwf & Ho & Hbm & (HI & _ & Hin & _)).
   pose proof (@live_n _ Ha) as Han. pose proof (@live_n _ Hb) as Hbn.
   unfold gen_below in H. rewrite E2 in H.
   destruct (upd_cell K p meth szs M x a x b x dist sa sb) as [M'| |] eqn:Eu; cbn [bind] in H; try discriminate.
@@ -200,7 +202,8 @@ Proof.
   { intros Ek w pr Hw Hpr. rewrite Cnew in Hw. inversion Hw; subst w.
     pose proof (HLB x a pr va Hx Ha Hxa ltac:(lia) Ca Hpr) as Ba.
     pose proof (HLB x b pr vb Hx Hb ltac:(lia) ltac:(lia) Cb Hpr) as Bb.
-    destruct (@rename_reducible Ek va vb dist sa sb sx Hsz) as [R|R];
+    destruct (Hmd va vb Ca Cb) as [Ma Mb].
+    destruct (@rename_reducible Ek va vb dist sa sb sx Hsz Ma Mb) as [R|R];
       [exact (@ltb_negtrans _ _ _ R Ba)|exact (@ltb_negtrans _ _ _ R Bb)]. }
   destruct (below_kind_of meth) eqn:Ek.
   - destruct (@rename_tail_q _ _ _ _ _ H) as [Eq ->]. rewrite Eq.
@@ -296,20 +299,31 @@ Hypothesis HAct : AInv act L.
 Hypothesis HActN : length (a_next act) = n0.
 
 Lemma below_fold_lb dist sa sb : ltb dist (k_max K) = true ->
-  (uses_sizes_ab meth = true -> 0 < sa /\ 0 < sb) -> forall xs s M s' M',
+  (uses_sizes_ab meth = true -> 0 < sa /\ 0 < sb) -> forall xs s M s' M', NoDup xs ->
   (forall x, In x xs -> In x L /\ x < a) -> GIu s M -> LBa (st_queue s) M ->
+  (forall x, In x xs -> forall va vb, wcell M x a = Some va -> wcell M x b = Some vb ->
+     ltb va dist = false /\ ltb vb dist = false) ->
   mfold (gen_below K p meth a b dist sa sb) xs (s, M) = Ok (s', M') ->
   GIu s' M' /\ LBa (st_queue s') M'.
 Proof.
-  intros Hd Hsz. induction xs as [|x xs IH]; intros s M s' M' Hxs HG HLB H; cbn [mfold] in H.
+  intros Hd Hsz. induction xs as [|x xs IH]; intros s M s' M' Hndx Hxs HG HLB Hrem H; cbn [mfold] in H.
   - inversion H; subst. split; assumption.
-  - destruct (Hxs x (or_introl eq_refl)) as [Hx Hxa].
+  - destruct (Hxs x (or_introl eq_refl)) as [Hx Hxa]. apply NoDup_cons_iff in Hndx. destruct Hndx as [Hnx Hndx'].
     destruct (gen_below K p meth a b dist sa sb (s, M) x) as [[s1 M1]| |] eqn:E; cbn [bind] in H; try discriminate.
     destruct (@gen_below_step T K p meth ltb_irrefl ltb_trans ltb_negtrans upd_below_max L n0 z a b Hzmax Hzn Ha Hb Hab act szs HActN Hszs
                 dist sa sb s M x HG Hx Hxa Hd) as (s1' & M1' & E' & HG1 & _).
     rewrite E in E'. inversion E'; subst s1' M1'.
-    pose proof (@below_lb dist sa sb s M x s1 M1 HG HLB Hx Hxa Hsz E) as HLB1.
-    exact (IH s1 M1 s' M' (fun y Hy => Hxs y (or_intror Hy)) HG1 HLB1 H).
+    pose proof (@below_lb dist sa sb s M x s1 M1 HG HLB Hx Hxa Hsz (Hrem x (or_introl eq_refl)) E) as HLB1.
+    apply (IH s1 M1 s' M' Hndx' (fun y Hy => Hxs y (or_intror Hy)) HG1 HLB1); [|exact H].
+    (* the cells of the rows still to come are untouched *)
+    intros y Hy va vb Ca Cb. destruct (Hxs y (or_intror Hy)) as [HyL Hya].
+    assert (Hyx : y <> x) by (intros ->; contradiction).
+    pose proof HG as (_ & E2g & Hwfg & Hog & _).
+    destruct (@gen_below_fst T K p meth a b dist sa sb s M x s1 M1 E) as (Eu & _ & _). rewrite E2g in Eu.
+    destruct (@upd_cell_live M M1 x a x b x dist sa sb Hwfg Hog Hxa (@live_n _ Ha) ltac:(lia) (@live_n _ Hb) Eu) as (Hfr & _).
+    rewrite (Hfr y a HyL Ha Hya ltac:(intros Eq; inversion Eq; lia)) in Ca.
+    rewrite (Hfr y b HyL Hb ltac:(lia) ltac:(intros Eq; inversion Eq; congruence)) in Cb.
+    exact (Hrem y (or_intror Hy) va vb Ca Cb).
 Qed.
 
 Lemma between_fold_lb dist sa sb : ltb dist (k_max K) = true -> forall xs s M s' M',
@@ -346,9 +360,11 @@ Proof.
 Qed.
 
 Theorem gen_update_lb s M dist0 s' M' : GIu s M -> LBa (st_queue s) M -> wcell M a b = Some dist0 ->
+  NoDup L ->
+  (forall x y w, In x L -> In y L -> x < y -> wcell M x y = Some w -> ltb w dist0 = false) ->
   gen_update K p meth s M a b dist0 = Ok (s', M') -> LBa (st_queue s') M'.
 Proof.
-  intros HG HLB Hd0 H. pose proof HG as (E1 & E2 & Hwf & Ho & Hbm & HBK).
+  intros HG HLB Hd0 HndL Hgmin H. pose proof HG as (E1 & E2 & Hwf & Ho & Hbm & HBK).
   pose proof HAct as (Hlen & Hl & Hdead).
   pose proof (@live_n _ Ha) as Han. pose proof (@live_n _ Hb) as Hbn.
   assert (Hdlt : ltb dist0 (k_max K) = true) by (exact (Hbm a b dist0 Ha Hb ltac:(lia) Hd0)).
@@ -367,9 +383,13 @@ Proof.
   cbn [bind lo_of hi_of] in H.
   destruct (mfold (gen_below K p meth a b dist0 sa sb) (filter (in_range (a_start act) a) L) (s, M)) as [[s1 M1]| |] eqn:F1;
     cbn [bind] in H; try discriminate.
-  destruct (@below_fold_lb dist0 sa sb Hdlt Hsz (filter (in_range (a_start act) a) L) s M s1 M1) as (HG1 & HLB1); [|exact HG|exact HLB|exact F1|].
+  assert (Hxs1 : forall x, In x (filter (in_range (a_start act) a) L) -> In x L /\ x < a).
   { intros x Hx. apply filter_In in Hx. destruct Hx as [Hx Hr]. unfold in_range in Hr.
     apply Bool.andb_true_iff in Hr. destruct Hr as [_ Hr]. apply Nat.ltb_lt in Hr. split; assumption. }
+  destruct (@below_fold_lb dist0 sa sb Hdlt Hsz (filter (in_range (a_start act) a) L) s M s1 M1) as (HG1 & HLB1);
+    [apply NoDup_filter; exact HndL|exact Hxs1|exact HG|exact HLB| |exact F1|].
+  { intros x Hx va vb Ca Cb. destruct (Hxs1 x Hx) as [HxL Hxa].
+    split; [exact (Hgmin x a va HxL Ha Hxa Ca)|exact (Hgmin x b vb HxL Hb ltac:(lia) Cb)]. }
   unfold a_between in H. rewrite (@a_range_spec _ _ (Incl a) (Excl b) HAct) in H by (cbn [lo_of hi_of]; lia).
   cbn [bind lo_of hi_of] in H. rewrite (filter_between_sorted (linked_sorted Hl) Ha Hab) in H.
   destruct (mfold (gen_between K p meth a b dist0 sa sb) (filter (fun z0 => (a <? z0) && (z0 <? b)) L) (s1, M1)) as [[s2 M2]| |] eqn:F2;
@@ -555,18 +575,9 @@ Proof.
   assert (HLB2 : LB L a (st_queue s2) M).
   { unfold s2. cbn [st_with_queue st_queue]. intros x y vv w Hx Hy Hxy Hxa Hw Hvv. rewrite Hp2 in Hvv.
     apply (HLB1 x y vv w Hx Hy Hxy); [pose proof (HB x Hx); lia|exact Hw|exact Hvv]. }
-  pose proof (@gen_update_lb L n0 z a b Hzmax Hzn Ha Hb Hab (st_active s) (st_sizes s) Hsz HSP HA HN s2 M dist s3 M3 HG HLB2 Hdc Hupd) as HLB3.
-  destruct (st_merge s3 d a b dist) as [[s4 d4]| |] eqn:Hm; cbn [bind] in H; try discriminate.
-  inversion H; subst s' d' M'.
-  destruct (st_merge_full _ _ _ _ _ Hm) as (za & zb & Hza & Hzb & _ & Hsteps4 & _).
-  destruct (@gen_update_update3 T K p meth _ _ _ _ _ _ _ Hupd) as (_ & _ & _ & _ & _ & _ & Hsz3 & _).
-  rewrite Hsz3 in Hza, Hzb. unfold s2 in Hza, Hzb. cbn [st_with_queue st_with_nearest st_sizes] in Hza, Hzb.
-  rewrite Hsteps4 in Hsteps. apply app_inj_tail in Hsteps. destruct Hsteps as [_ Est].
-  unfold step_new in Est. destruct (Nat.ltb_spec b a); [lia|]. destruct (Nat.ltb_spec b' a'); [lia|]. inversion Est; subst a' b' v' sz'.
-  rewrite (st_merge_queue _ _ _ _ _ Hm).
-  split.
-  - intros x y w Hx Hy Hxy Hw.
-    (* w >= prio x >= prio a = dist *)
+  (* the popped pair is a global minimum: w >= prio x >= prio a = dist *)
+  assert (Hgmin : forall x y w, In x L -> In y L -> x < y -> wcell M x y = Some w -> ltb w dist = false).
+  { intros x y w Hx Hy Hxy Hw.
     assert (Hxz : x <> z) by (pose proof (Hzmax y Hy); lia).
     destruct (Hplt1 x Hx Hxz) as (px & Hpx & _).
     pose proof (HLB1 x y px w Hx Hy Hxy ltac:(pose proof (HB x Hx); lia) Hw Hpx) as B1.
@@ -576,7 +587,18 @@ Proof.
     assert (Pp0 : pp q1 0 = Some pa) by (unfold pp; rewrite E0; exact Hpa).
     pose proof (@top_min T ltb ltb_irrefl ltb_negtrans n0 q1 HI1 HO1 kx px pa Ppx Pp0) as B2.
     pose proof (@ltb_negtrans _ _ _ B1 B2) as B3.
-    exact (@ltb_negtrans _ _ _ B3 (@eqb_le _ _ Hfresh)).
+    exact (@ltb_negtrans _ _ _ B3 (@eqb_le _ _ Hfresh)). }
+  pose proof (@gen_update_lb L n0 z a b Hzmax Hzn Ha Hb Hab (st_active s) (st_sizes s) Hsz HSP HA HN s2 M dist s3 M3 HG HLB2 Hdc Hnd Hgmin Hupd) as HLB3.
+  destruct (st_merge s3 d a b dist) as [[s4 d4]| |] eqn:Hm; cbn [bind] in H; try discriminate.
+  inversion H; subst s' d' M'.
+  destruct (st_merge_full _ _ _ _ _ Hm) as (za & zb & Hza & Hzb & _ & Hsteps4 & _).
+  destruct (@gen_update_update3 T K p meth _ _ _ _ _ _ _ Hupd) as (_ & _ & _ & _ & _ & _ & Hsz3 & _).
+  rewrite Hsz3 in Hza, Hzb. unfold s2 in Hza, Hzb. cbn [st_with_queue st_with_nearest st_sizes] in Hza, Hzb.
+  rewrite Hsteps4 in Hsteps. apply app_inj_tail in Hsteps. destruct Hsteps as [_ Est].
+  unfold step_new in Est. destruct (Nat.ltb_spec b a); [lia|]. destruct (Nat.ltb_spec b' a'); [lia|]. inversion Est; subst a' b' v' sz'.
+  rewrite (st_merge_queue _ _ _ _ _ Hm).
+  split.
+  - exact Hgmin.
   - split; [|exists za, zb; auto].
     intros x y vv w Hx Hy Hxy _ Hw Hvv. apply without_In in Hx. apply without_In in Hy.
     exact (HLB3 x y vv w (proj1 Hx) (proj1 Hy) Hxy (proj2 Hx) Hw Hvv).
